@@ -1372,39 +1372,33 @@ func (r *Reader) processParagraph(p paragraphXML) parsedParagraph {
 	return parsed
 }
 
-// extractRunText extracts text from a run element.
+// extractRunText extracts text from a run element, keeping the run's inline
+// content (text, symbols, tabs, breaks) in document order.
 func (r *Reader) extractRunText(run runXML) string {
 	var parts []string
 
-	for _, t := range run.Text {
-		parts = append(parts, t.Value)
-	}
-
-	// Handle symbol characters (emoji and special symbols)
-	for _, sym := range run.Symbols {
-		if char := parseSymbolChar(sym.Char); char != "" {
-			parts = append(parts, char)
-		}
-	}
-
-	// Handle AlternateContent fallbacks (used for emoji in newer Word versions)
-	for _, ac := range run.AlternateContent {
-		for _, t := range ac.Fallback.Text {
-			parts = append(parts, t.Value)
-		}
-	}
-
-	// Handle tab characters
-	for range run.Tabs {
-		parts = append(parts, "\t")
-	}
-
-	// Handle breaks
-	for _, br := range run.Breaks {
-		if br.Type == "page" {
-			parts = append(parts, "\n\n")
-		} else {
-			parts = append(parts, "\n")
+	for _, c := range run.Content {
+		switch c.XMLName.Local {
+		case "t":
+			parts = append(parts, c.Value)
+		case "sym":
+			// Symbol characters (emoji and special symbols)
+			if char := parseSymbolChar(c.Char); char != "" {
+				parts = append(parts, char)
+			}
+		case "AlternateContent":
+			// AlternateContent fallbacks (used for emoji in newer Word versions)
+			for _, t := range c.Fallback.Text {
+				parts = append(parts, t.Value)
+			}
+		case "tab":
+			parts = append(parts, "\t")
+		case "br":
+			if c.Type == "page" {
+				parts = append(parts, "\n\n")
+			} else {
+				parts = append(parts, "\n")
+			}
 		}
 	}
 
